@@ -13,7 +13,7 @@ META = {
         "quick": "partition(timeout): k<=3 arrivals; timed_window / timed_window_unique: k<=2 (sharded); gaps sym in [0,4], "
                  "interval/timeout sym in [1,3], consumer durations sym in [0,3], partition size n in {1,2,3} (sharded), "
                  "keys sym in {0,1}, same-instant order sym",
-        "thorough": "k<=4 arrivals for partition, k<=3 for timed_window(_unique); gaps in [0,6], interval in [1,4], durations in [0,5]",
+        "thorough": "k<=4 arrivals for partition, k<=3 for timed_window(_unique); gaps in [0,5], interval in [1,3], durations in [0,4]",
     },
     "outside": ["clock drift", "convert_interval string parsing (pandas)", "awaiting producers (covered in C02/C03)"],
     "stubs": ["clock: streamz.core.time / IOLoop.time -> virtual integer tick", "event loop: engine/vloop.py"],
@@ -223,7 +223,7 @@ def _check_unique(vd, batches, items, arr, keep):
 def obligations(tier):
     q = tier == "quick"
     B = 400 if q else 3000
-    dom = {} if q else {"gmax": 6, "imax": 4, "dmax": 5}
+    dom = {} if q else {"gmax": 5, "imax": 3, "dmax": 4}
     obls = []
 
     def add(name, shard, nint, k):
